@@ -71,7 +71,7 @@ func ruleC11(w *World) {
 		w.check(render(chs[0].Common().Value) == h && render(chs[0].Common().Args[0]) == P(fn, len(fn.Params)-2), "C11.R1", fnKey(fn)+"/ComputeHash-args", chs[0].Pos(),
 			"hashes the given data with the given hasher", "ComputeHash is not applied to the data argument with the hasher argument: "+render(chs[0].(ssa.Value)))
 		w.ruleErrorClauses("C11.R1", fn, map[string][]string{
-			h + " == nil":                                 {"sentinel:errNilHasher"},
+			h + " == nil":                          {"sentinel:errNilHasher"},
 			fmt.Sprintf("%s.Size() < %s", h, nLen): {"ctor:invalidHasherSizeErrorf"},
 		})
 		// nLen really is the byte length of the curve order (helper shape)
@@ -87,112 +87,10 @@ func ruleC11(w *World) {
 	} else {
 		w.undecided("C11.R1", "anchor:bitsToBytes", token.NoPos, "unresolved anchor bitsToBytes")
 	}
-	// R2: verdict provenance
-	var vh *ssa.Function
-	for _, r := range returns(verify) {
-		if ex, ok := stripConv(r.Results[0]).(*ssa.Extract); ok {
-			if c, ok := ex.Tuple.(*ssa.Call); ok {
-				vh = c.Call.StaticCallee()
-				want := fmt.Sprintf("%s.%s(%s, %s.ComputeHash(%s))", P(verify, 0), vh.Name(), P(verify, 1), P(verify, 3), P(verify, 2))
-				w.check(render(c) == want, "C11.R2", fnKey(verify)+"/delegation", r.Pos(), "Verify returns verifyHash(sig, hasher(data))", "Verify does not return the hash verification of (sig, hasher(data)): "+render(c))
-			}
-		}
-	}
-	if vh == nil || !inModule(vh) {
-		w.viol("C11.R2", fnKey(verify)+"/delegation", verify.Pos(), "Verify does not delegate to an internal hash verification")
-	} else {
-		recv, sig, h := P(vh, 0), P(vh, 1), P(vh, 2)
-		nLen := fmt.Sprintf("bitsToBytes(%s.alg.curve.Params().N.BitLen())", recv)
-		n := 0
-		for _, r := range returns(vh) {
-			if isConstBool(r.Results[0], false) {
-				fs := w.factsAt(r)
-				w.check(hasFact(fs, cmpFact("len("+sig+")", "!=", "(2 * "+nLen+")")) && isNilConst(r.Results[1]), "C11.R2", fnKey(vh)+"/wrong-length", r.Pos(), "wrong length ⇒ (false,nil)", "a (false, …) return that is not the wrong-length clause", factStrings(fs)...)
-				continue
-			}
-			n++
-			c, ok := stripConv(r.Results[0]).(*ssa.Call)
-			if !ok || c.Call.StaticCallee() == nil || c.Call.StaticCallee().String() != "crypto/ecdsa.Verify" {
-				w.viol("C11.R2", fnKey(vh)+"/verdict", r.Pos(), "the verdict is not the result of crypto/ecdsa.Verify: `"+render(r.Results[0])+"`")
-				continue
-			}
-			w.requireFacts("C11.R2", fnKey(vh)+"/verdict", r, cmpFact("len("+sig+")", "==", "(2 * "+nLen+")"))
-			args := c.Call.Args
-			w.check(render(args[0]) == recv+".goPubKey" && render(args[1]) == h, "C11.R2", fnKey(vh)+"/verdict-key-hash", r.Pos(), "ecdsa.Verify on the key's public key and the given hash", "ecdsa.Verify is not called on (pk.goPubKey, h): "+render(c))
-			// r and s: big.Int allocations whose only writes are SetBytes(sig[:nLen]) / SetBytes(sig[nLen:])
-			wantSl := []string{fmt.Sprintf("%s[:%s]", sig, nLen), fmt.Sprintf("%s[%s:]", sig, nLen)}
-			for i, a := range args[2:4] {
-				al, ok := a.(*ssa.Alloc)
-				good := ok
-				if ok {
-					nset := 0
-					for _, ref := range *al.Referrers() {
-						switch x := ref.(type) {
-						case *ssa.Call:
-							if x == c {
-								continue
-							}
-							if f := x.Call.StaticCallee(); f != nil && f.String() == "(*math/big.Int).SetBytes" && render(x.Call.Args[1]) == wantSl[i] {
-								nset++
-							} else {
-								good = false
-							}
-						case *ssa.DebugRef:
-						default:
-							good = false
-						}
-					}
-					if nset != 1 {
-						good = false
-					}
-				}
-				w.check(good, "C11.R2", fmt.Sprintf("%s/verdict-%s", fnKey(vh), []string{"r", "s"}[i]), r.Pos(), "scalar is exactly SetBytes("+wantSl[i]+")", "the "+[]string{"r", "s"}[i]+" operand of ecdsa.Verify is not exactly big.Int.SetBytes("+wantSl[i]+")")
-			}
-		}
-		if n == 0 {
-			w.viol("C11.R2", fnKey(vh)+"/verdict", vh.Pos(), "no verdict return")
-		}
-	}
+	// R2: verdict provenance — entry-relative: wherever the library call sits below Verify
+	w.ruleC11Verdict(verify)
 	// R3: format check
-	var algoT *types.Named
-	if p := w.ByPath[rootPath]; p != nil {
-		if tn, ok := p.Types.Scope().Lookup("ecdsaAlgo").(*types.TypeName); ok {
-			algoT, _ = tn.Type().(*types.Named)
-		}
-	}
-	var sfc *ssa.Function
-	if algoT != nil {
-		sfc = w.method(algoT, "signatureFormatCheck")
-	}
-	if sfc == nil {
-		w.undecided("C11.R3", "anchor:signatureFormatCheck", token.NoPos, "unresolved anchor: signatureFormatCheck")
-	} else {
-		a, sig := P(sfc, 0), P(sfc, 1)
-		N := a + ".curve.Params().N"
-		nLen := fmt.Sprintf("bitsToBytes(%s.BitLen())", N)
-		for _, r := range returns(sfc) {
-			if isConstBool(r.Results[0], true) {
-				fs := w.factsAt(r)
-				need := []string{cmpFact("len("+sig+")", "==", "(2 * "+nLen+")"), "&heap:r.Sign() != 0", "&heap:s.Sign() != 0", fmt.Sprintf("&heap:r.Cmp(%s) < 0", N), fmt.Sprintf("&heap:s.Cmp(%s) < 0", N)}
-				for _, nd := range need {
-					w.check(hasFact(fs, nd), "C11.R3", fnKey(sfc)+"/accept/"+nd, r.Pos(), "format accepted only under "+nd, "signatureFormatCheck returns true without `"+nd+"`", factStrings(fs)...)
-				}
-			}
-		}
-		// r, s parsed from the two halves
-		sb := 0
-		instrs(sfc, func(ins ssa.Instruction) {
-			if c, ok := ins.(*ssa.Call); ok {
-				if f := c.Call.StaticCallee(); f != nil && f.String() == "(*math/big.Int).SetBytes" {
-					s := render(c.Call.Args[1])
-					if s == fmt.Sprintf("%s[:%s]", sig, nLen) || s == fmt.Sprintf("%s[%s:]", sig, nLen) {
-						sb++
-					}
-				}
-			}
-		})
-		w.check(sb == 2, "C11.R3", fnKey(sfc)+"/halves", sfc.Pos(), "r and s are the two halves of the signature", "r/s are not parsed from sig[:nLen] and sig[nLen:]")
-	}
+	w.ruleC11Format()
 	// algorithm ↔ instance tables
 	w.ruleAlgoTables("C11.R3")
 }
@@ -509,12 +407,19 @@ type orderedCall struct {
 	args []string
 }
 
-func methodCalls(fn *ssa.Function) []orderedCall {
+func methodCalls(fn *ssa.Function) []orderedCall { return methodCallsD(fn, 0) }
+
+func methodCallsD(fn *ssa.Function, depth int) []orderedCall {
 	var out []orderedCall
 	for _, b := range fn.DomPreorder() {
 		for _, ins := range b.Instrs {
 			c, ok := ins.(ssa.CallInstruction)
 			if !ok {
+				continue
+			}
+			if h := helperCallee(ins); h != nil && depth < 3 {
+				// extracted helper: its calls happen here, in order
+				out = append(out, methodCallsD(h, depth+1)...)
 				continue
 			}
 			cc := c.Common()
@@ -788,6 +693,19 @@ func hasFactPrefixSuffix(fs []Fact, want string) bool {
 }
 
 func instrDominates(a, b ssa.Instruction) bool {
+	if a.Parent() != b.Parent() {
+		// one of them sits in a virtually inlined helper: compare at the call site
+		if la := liftTo(a, b.Parent()); la.Parent() == b.Parent() {
+			a = la
+		} else if lb := liftTo(b, a.Parent()); lb.Parent() == a.Parent() {
+			b = lb
+		} else {
+			return false
+		}
+		if a == b {
+			return false
+		}
+	}
 	if a.Block() == b.Block() {
 		return instrIndex(a) < instrIndex(b)
 	}
@@ -795,11 +713,11 @@ func instrDominates(a, b ssa.Instruction) bool {
 }
 
 type spongeLit struct {
-	fn                        string
-	algo                      string
-	rate, outLen, ds          int64
-	okRate, okOut, okDs       bool
-	pos                       token.Pos
+	fn                  string
+	algo                string
+	rate, outLen, ds    int64
+	okRate, okOut, okDs bool
+	pos                 token.Pos
 }
 
 func (w *World) ruleSpongeLiterals(rule string, spongeT *types.Named) {
@@ -949,7 +867,6 @@ func (w *World) ruleBytepad(rule string) {
 	}
 	w.check(len(bad) == 0, rule, fnKey(fn)+"/least-multiple", fn.Pos(), "bytepad pads to the least multiple of w for every residue", "bytepad does not pad to the least multiple of w (SP 800-185): "+strings.Join(bad, "; ")+" — padlen = "+s)
 }
-
 
 // ruleKmacInitBlock: the KMAC key (for BLS: domain tag ‖ ciphersuite) enters the hash exactly as
 // bytepad(encode_string(key), 168): stored unmodified in the init-block field and absorbed by the
@@ -1111,10 +1028,13 @@ func ruleC14(w *World) {
 		w.check(okk, "C14.R2", fnKey(sf)+"/counter-encoding", sf.Pos(), "counter stored little-endian from bytesCounter", "counter is not LittleEndian.PutUint64(bytesCounter)")
 	}
 	{
+		// slice bounds are compared after normalisation: [0:k] = [:k]; [k:52] = [k:len] = [k:] (the state is exactly 52 bytes, R1)
+		total := fmt.Sprint(keySize + nonce + 8)
+		rn := func(v ssa.Value) string { return canonSlices(render(v), st, total) }
 		sl := map[string]bool{}
 		instrs(rf, func(ins ssa.Instruction) {
 			if s, ok := ins.(*ssa.Slice); ok && render(s.X) == st {
-				sl[render(s)] = true
+				sl[rn(s)] = true
 			}
 		})
 		want := []string{fmt.Sprintf("%s[:%d]", st, keySize), fmt.Sprintf("%s[%d:%d]", st, keySize, keySize+nonce), fmt.Sprintf("%s[%d:]", st, keySize+nonce)}
@@ -1122,15 +1042,15 @@ func ruleC14(w *World) {
 			w.check(sl[wv], "C14.R2", fnKey(rf)+"/slice:"+wv, rf.Pos(), "Restore reads "+wv, "Restore does not slice the state as "+wv+" (layout disagrees with Store)")
 		}
 		u := callsTo(rf, "Uint64")
-		okk := len(u) == 1 && strings.Contains(render(u[0].Common().Args[0]), "LittleEndian") && render(u[0].Common().Args[1]) == want[2]
+		okk := len(u) == 1 && strings.Contains(render(u[0].Common().Args[0]), "LittleEndian") && rn(u[0].Common().Args[1]) == want[2]
 		w.check(okk, "C14.R2", fnKey(rf)+"/counter-decoding", rf.Pos(), "counter read little-endian from the last 8 bytes", "counter is not LittleEndian.Uint64 of the last 8 bytes")
 		for _, c := range callsTo(rf, "NewUnauthenticatedCipher") {
-			w.check(render(c.Common().Args[0]) == want[0] && render(c.Common().Args[1]) == want[1], "C14.R2", fnKey(rf)+"/cipher-key", c.Pos(), "cipher rebuilt from the stored seed and customizer", "Restore keys the cipher with "+render(c.Common().Args[0])+", "+render(c.Common().Args[1]))
+			w.check(rn(c.Common().Args[0]) == want[0] && rn(c.Common().Args[1]) == want[1], "C14.R2", fnKey(rf)+"/cipher-key", c.Pos(), "cipher rebuilt from the stored seed and customizer", "Restore keys the cipher with "+render(c.Common().Args[0])+", "+render(c.Common().Args[1]))
 		}
 		// R4: block arithmetic with one constant = 64
 		ctr := "*LittleEndian.Uint64(" + want[2] + ")"
 		sc := callsTo(rf, "SetCounter")
-		okk = len(sc) == 1 && render(sc[0].Common().Args[1]) == "("+ctr+" / 64)"
+		okk = len(sc) == 1 && rn(sc[0].Common().Args[1]) == "("+ctr+" / 64)"
 		if okk {
 			// the quotient is formed in the counter's own 64-bit type and narrowed afterwards: narrowing
 			// first drops the high bits of the byte counter (streams longer than 4 GiB)
@@ -1159,7 +1079,7 @@ func ruleC14(w *World) {
 		xk := callsTo(rf, "XORKeyStream")
 		okk = false
 		if len(xk) == 1 {
-			if ms, ok := sliceBase(xk[0].Common().Args[1]).(*ssa.MakeSlice); ok && render(ms.Len) == "("+ctr+" % 64)" && len(sc) == 1 && instrDominates(sc[0].(ssa.Instruction), xk[0].(ssa.Instruction)) {
+			if ms, ok := sliceBase(xk[0].Common().Args[1]).(*ssa.MakeSlice); ok && rn(ms.Len) == "("+ctr+" % 64)" && len(sc) == 1 && instrDominates(sc[0].(ssa.Instruction), xk[0].(ssa.Instruction)) {
 				okk = true
 			}
 		}
@@ -1169,7 +1089,7 @@ func ruleC14(w *World) {
 		instrs(rf, func(ins ssa.Instruction) {
 			if s, ok := ins.(*ssa.Store); ok {
 				if f := addrField(s.Addr); f != nil {
-					fields[f.Name()] = render(s.Val)
+					fields[f.Name()] = rn(s.Val)
 				}
 			}
 		})
@@ -1307,28 +1227,36 @@ func ruleC15(w *World) {
 	for _, r := range returns(un) {
 		v := r.Results[0]
 		fs := w.factsAt(r)
-		ph, ok := v.(*ssa.Phi)
 		key := fnKey(un) + "/return"
-		if !ok {
-			w.viol("C15.R1", key, r.Pos(), "returned value is not the rejection-loop variable: "+render(v))
-			continue
-		}
-		w.check(hasFact(fs, fmt.Sprintf("%s <= (%s - 1)", render(ph), n)), "C15.R1", key+"/in-range", r.Pos(), "returns only when random ≤ n-1", "UintN can return a value that was not tested against n-1 with ≤", factStrings(fs)...)
-		// definition of the sample: every non-initial edge is  LittleEndian.Uint64(buffer[:]) & mask ; no Rem/Quo
-		for _, e := range ph.Edges {
-			if render(e) == n {
-				continue // initial value n (> max) forces at least one draw
+		// the returned sample: the loop variable (all its non-initial definitions) or the value drawn in this iteration
+		samples := []ssa.Value{v}
+		if ph, ok := v.(*ssa.Phi); ok {
+			samples = nil
+			for _, e := range ph.Edges {
+				if render(e) != n { // initial value n (> max) forces at least one draw
+					samples = append(samples, e)
+				}
 			}
+		}
+		w.check(hasFact(fs, fmt.Sprintf("%s <= (%s - 1)", render(v), n)), "C15.R1", key+"/in-range", r.Pos(), "returns only when random ≤ n-1", "UintN can return a value that was not tested against n-1 with ≤", factStrings(fs)...)
+		// definition of the sample: LittleEndian.Uint64(buffer[:]) & mask ; no Rem/Quo
+		for _, e := range samples {
 			bo, ok := e.(*ssa.BinOp)
 			good := ok && bo.Op == token.AND
 			if good {
-				s := render(bo.X)
-				good = strings.Contains(s, "LittleEndian.Uint64("+p+".uintnBuffer[:])")
-				// mask: smallest 2^k-1 ≥ max: loop invariant check (mask&max)==max on exit
+				x, y := bo.X, bo.Y
+				if !strings.Contains(render(x), "LittleEndian.Uint64("+p+".uintnBuffer[:])") {
+					x, y = y, x
+				}
+				good = strings.Contains(render(x), "LittleEndian.Uint64("+p+".uintnBuffer[:])")
+				// mask: 2^k-1 ≥ max: loop-exit invariant (mask&max)==max
 				mfs := w.factsAt(bo)
-				good = good && hasFact(mfs, fmt.Sprintf("((%s - 1) & %s) == (%s - 1)", n, render(bo.Y), n))
+				good = good && hasFact(mfs, fmt.Sprintf("((%s - 1) & %s) == (%s - 1)", n, render(y), n))
 			}
 			w.check(good, "C15.R1", key+"/sample-definition", e.Pos(), "sample = LE(buffer) & mask with mask covering n-1; no modular reduction", "the sample is not defined as little-endian(buffer) & mask (mask ⊇ n-1): `"+render(e)+"` — a reduction or another mapping biases the distribution")
+		}
+		if len(samples) == 0 {
+			w.viol("C15.R1", key+"/sample-definition", r.Pos(), "UintN returns a value that is never drawn: "+render(v))
 		}
 	}
 	hasRem := false
@@ -1486,45 +1414,64 @@ func ruleC15(w *World) {
 // ruleErrorFacts: for each trigger fact there is a branch edge establishing it that leads directly
 // to a return with a non-nil error, and no allocation or PRG read happens before those checks.
 func (w *World) ruleErrorFacts(rule string, fn *ssa.Function, trigs []string) {
+	edges := w.errorEdges(fn, func(x string) string { return x }, 0)
 	for _, t := range trigs {
 		found := false
-		for _, b := range fn.Blocks {
-			ifi, ok := b.Instrs[len(b.Instrs)-1].(*ssa.If)
-			if !ok {
+		for _, e := range edges {
+			if e.fact != t {
 				continue
 			}
-			for k, pol := range []bool{true, false} {
-				var fs []Fact
-				condFacts(ifi.Cond, pol, ifi, &fs)
-				for _, f := range fs {
-					if f.Expr == t {
-						succ := b.Succs[k]
-						if r, ok := succ.Instrs[len(succ.Instrs)-1].(*ssa.Return); ok && !isNilConst(r.Results[len(r.Results)-1]) {
-							found = true
-							// nothing effectful before the check
-							eff := ""
-							for _, d := range fn.Blocks {
-								if d.Dominates(b) {
-									for _, ins := range d.Instrs {
-										switch x := ins.(type) {
-										case *ssa.MakeSlice:
-											eff = "allocation"
-										case ssa.CallInstruction:
-											if x.Common().IsInvoke() || x.Common().StaticCallee() != nil && x.Common().StaticCallee().Name() == "UintN" {
-												eff = "call " + render(ins.(ssa.Value))
-											}
-										}
-									}
-								}
+			found = true
+			// nothing effectful before the check
+			eff := ""
+			for _, d := range fn.Blocks {
+				if d.Dominates(e.top) {
+					for _, ins := range d.Instrs {
+						switch x := ins.(type) {
+						case *ssa.MakeSlice:
+							eff = "allocation"
+						case ssa.CallInstruction:
+							if x.Common().IsInvoke() || x.Common().StaticCallee() != nil && x.Common().StaticCallee().Name() == "UintN" {
+								eff = "call " + render(ins.(ssa.Value))
 							}
-							w.check(eff == "", rule, fnKey(fn)+"/reject:"+t, r.Pos(), "argument error returned before any allocation or PRG read", "the `"+t+"` rejection happens after "+eff)
 						}
 					}
 				}
 			}
+			w.check(eff == "", rule, fnKey(fn)+"/reject:"+t, e.pos, "argument error returned before any allocation or PRG read", "the `"+t+"` rejection happens after "+eff)
 		}
 		if !found {
 			w.viol(rule, fnKey(fn)+"/reject:"+t, fn.Pos(), "no error return decided by `"+t+"`")
 		}
 	}
+}
+
+// canonSlices normalises constant slice bounds of `base` inside a rendered expression:
+// base[0:k] → base[:k]; base[k:total] and base[k:len(base)] → base[k:].
+func canonSlices(s, base, total string) string {
+	var b strings.Builder
+	for i := 0; i < len(s); {
+		if strings.HasPrefix(s[i:], base+"[") && (i == 0 || !isIdentChar(s[i-1])) {
+			j := i + len(base) + 1
+			k := strings.IndexByte(s[j:], ']')
+			if k >= 0 {
+				inner := s[j : j+k]
+				if c := strings.IndexByte(inner, ':'); c >= 0 && !strings.Contains(inner, "[") {
+					lo, hi := inner[:c], inner[c+1:]
+					if lo == "0" {
+						lo = ""
+					}
+					if hi == total || hi == "len("+base+")" {
+						hi = ""
+					}
+					b.WriteString(base + "[" + lo + ":" + hi + "]")
+					i = j + k + 1
+					continue
+				}
+			}
+		}
+		b.WriteByte(s[i])
+		i++
+	}
+	return b.String()
 }
